@@ -71,7 +71,7 @@ impl Acc {
     }
 }
 
-fn case(keys: &[usize], bin: bool, ops: &[usize]) -> Value {
+fn case(keys: &[usize], bin: u8, ops: &[usize]) -> Value {
     json!({"kind": "frame", "keys": keys, "binary": bin, "ops": ops})
 }
 
@@ -238,7 +238,7 @@ where
 }
 
 #[allow(clippy::too_many_arguments)]
-fn explore(frame: &Frame, m: &Model, keys: &[usize], bin: bool, ops: &mut Vec<usize>, depth: usize, acc: &mut Acc, verbose: bool) {
+fn explore(frame: &Frame, m: &Model, keys: &[usize], bin: u8, ops: &mut Vec<usize>, depth: usize, acc: &mut Acc, verbose: bool) {
     acc.nodes += 1;
     let c = case(keys, bin, ops);
     observe_all(frame, m, &c, acc, verbose);
@@ -272,9 +272,15 @@ fn explore(frame: &Frame, m: &Model, keys: &[usize], bin: bool, ops: &mut Vec<us
     }
 }
 
-fn make_frame(keys: &[usize], bin: bool) -> (Frame, Model) {
+/// `bin`: 0 = no binary part, 1 = a payload with protocol-like bytes, 2 = a zero-length payload
+/// (`binary: 0`, what MPD sends at the end of a picture)
+fn make_frame(keys: &[usize], bin: u8) -> (Frame, Model) {
     let fields: Vec<(String, String)> = keys.iter().enumerate().map(|(i, k)| (KEYS[*k].to_string(), format!("v{i}"))).collect();
-    let af = AFrame { fields: fields.clone(), binary: if bin { Some(b"\0bin\n".to_vec()) } else { None } };
+    let af = AFrame { fields: fields.clone(), binary: match bin {
+        0 => None,
+        1 => Some(b"\0bin\n".to_vec()),
+        _ => Some(Vec::new()),
+    } };
     let mut bytes = Vec::new();
     encode_frame(&af, BinPos::Last, &mut bytes);
     bytes.extend_from_slice(b"OK\n");
@@ -296,6 +302,13 @@ fn response_cases() -> Vec<Wire> {
         v.push(Wire::List((0..n).map(f).collect()));
     }
     v.push(Wire::SingleErr { partial: AFrame::default(), err: e.clone() });
+    // a command that printed part of its output before it failed: the output belongs to no
+    // successful frame
+    v.push(Wire::SingleErr { partial: f(7), err: e.clone() });
+    v.push(Wire::SingleErr { partial: AFrame { fields: vec![("n".into(), "8".into()), ("m".into(), "x".into())], binary: Some(b"bin".to_vec()) }, err: e.clone() });
+    // zero-length and ordinary payloads inside responses
+    v.push(Wire::Single(AFrame { fields: vec![], binary: Some(Vec::new()) }));
+    v.push(Wire::List(vec![f(0), AFrame { fields: vec![("size".into(), "0".into())], binary: Some(Vec::new()) }, AFrame { fields: vec![], binary: Some(b"x\ny".to_vec()) }]));
     for n in 1..=3 {
         let mut e2 = e.clone();
         e2.index = n as u64;
@@ -401,10 +414,11 @@ pub fn run(tier: Tier) -> i32 {
     let mut ctx = Ctx::new("C19", tier, "model_checking");
     ctx.assume("the reference is an ordered multimap: Vec<Option<(key, value)>> + Option<binary>; a taken value leaves a hole that every observer skips");
     let depth = tier.pick(5, 6);
-    let mut frames: Vec<(Vec<usize>, bool)> = Vec::new();
+    let mut frames: Vec<(Vec<usize>, u8)> = Vec::new();
     for ks in key_seqs(4) {
-        frames.push((ks.clone(), false));
-        frames.push((ks, true));
+        for bin in 0..=2u8 {
+            frames.push((ks.clone(), bin));
+        }
     }
     let acc = frames
         .par_iter()
@@ -429,7 +443,7 @@ pub fn run(tier: Tier) -> i32 {
     cov.evaluations = acc.nodes;
     cov.distinct_nontrivial = acc.nontrivial;
     cov.rule = format!(
-        "frames: all key sequences of length 0..=4 over {{a, A, b}} with distinct values, with and without a binary part ({} frames, built by the real parser) x every sequence of <= {depth} operations from {{get(a), get(A), get(b), get(zz), take_binary}}; after every step every observer incl. fields()/into_iter() under every next/next_back pattern and the positional / consuming adaptors (nth, nth_back, last, count, size_hint, skip, step_by, rev); responses: 0..=3 frames with and without error under every front/back pattern with size hints; evaluations = operation-sequence prefixes (search tree nodes); non-trivial = frames with >= 2 fields and all response cases",
+        "frames: all key sequences of length 0..=4 over {{a, A, b}} with distinct values, without a binary part, with a payload and with a zero-length payload ({} frames, built by the real parser) x every sequence of <= {depth} operations from {{get(a), get(A), get(b), get(zz), take_binary}}; after every step every observer incl. fields()/into_iter() under every next/next_back pattern and the positional / consuming adaptors (nth, nth_back, last, count, size_hint, skip, step_by, rev); responses: 0..=3 frames with and without error (incl. partial output before the error, zero-length payloads) under every front/back pattern with size hints; evaluations = operation-sequence prefixes (search tree nodes); non-trivial = frames with >= 2 fields and all response cases",
         acc.frames
     );
     cov.states = acc.nodes;
@@ -452,7 +466,7 @@ pub fn replay(case: &Value) -> i32 {
         }
     } else {
         let keys: Vec<usize> = case["keys"].as_array().map(|a| a.iter().filter_map(|x| x.as_u64().map(|v| (v as usize).min(2))).collect()).unwrap_or_default();
-        let bin = case["binary"].as_bool().unwrap_or(false);
+        let bin = case["binary"].as_u64().map(|v| v.min(2) as u8).or_else(|| case["binary"].as_bool().map(|b| b as u8)).unwrap_or(0);
         let ops: Vec<usize> = case["ops"].as_array().map(|a| a.iter().filter_map(|x| x.as_u64().map(|v| (v as usize).min(4))).collect()).unwrap_or_default();
         println!("replay C19: frame keys {:?} binary {bin}, operations {:?}", keys.iter().map(|k| KEYS[*k]).collect::<Vec<_>>(), ops.iter().map(|o| format!("{:?}", OPS[*o])).collect::<Vec<_>>());
         let (mut f, mut m) = make_frame(&keys, bin);
